@@ -54,6 +54,9 @@
 # run_inspector(fmt, data, chunks=None, finish=True) -> inspector   fresh REAL inspector fed the chunks;
 #                             .imgbuild_error = first exception raised by eat_chunk (feeding stops there)
 # run_all(data, chunks=None) -> {fmt: inspector}
+# safety_outcome(inspector) -> 'pass' | 'fail:<check names>' | 'refused' | 'crash:<Exc>'
+# helpers: pte(...), PROTECTIVE, EMPTY_PTE, MBR_TYPES, gpt_table_verdict(ptes); guid_bytes(str), GUID_*; set_field(img, name,
+#   value), field_values(field); VMDK_SAFE_TYPES, VMDK_OTHER_TYPES, VMDK_FOOTER_CHECKED/UNCHECKED, GD_AT_END; ISO_IDENTS
 # ---------------------------------------------------------------------------
 
 import struct
@@ -214,9 +217,12 @@ def size_values(fmt, rng, n_random=4):
 
 
 def _result(fmt, data, declared, bounds, fields, params, reject, unspecified, defects,
-            complete_at, tail_sensitive=False, extra=None, size_known_at=None):
+            complete_at, tail_sensitive=False, extra=None, size_known_at=None, scrub_gpt=True):
     """Assemble the Image; expect_accept strictly from the property text of C02."""
     n = len(data)
+    if scrub_gpt and fmt != 'gpt' and n >= 512 and bytes(data[510:512]) == b'\x55\xaa':
+        data = bytearray(data)           # accidental MBR signature in random filler: not a polyglot on purpose
+        data[510] ^= 0x01
     reject = list(reject)
     if complete_at is None or n < complete_at:
         reject.append('incomplete')
@@ -528,7 +534,7 @@ def build_iso(rng=None, **params):
     bounds = [0, 512, 32768, o + 1, o + 6, o + 80, o + 84, o + 88, o + 128, o + 130, o + 132, 34816]
     return _result('iso', buf, (blocks & U32) * (bs & U16), bounds, fields,
                    dict(params, blocks=blocks, block_size=bs, length=length), reject, [], defects, 34816,
-                   extra=dict(descriptor_type=dtype, ident=bytes(ident),
+                   scrub_gpt=not isinstance(sysa, (bytes, bytearray)), extra=dict(descriptor_type=dtype, ident=bytes(ident),
                               size_if_matched=((blocks & U32) * (bs & U16) if dtype & 0xFF == 1 else 0)))
 
 
